@@ -310,6 +310,13 @@ def call_builtin(ex, reg, st, f: VBuiltin, args, kwargs, node):
     ln = getattr(node, "lineno", 0)
     if name.startswith("spec:"):
         return [(st, spec_builtin(ex, reg, st, name[5:], args, kwargs, node))]
+    if name.startswith("typeddict:"):
+        if args:
+            raise EngineUnsupported("TypedDict constructor with positional arguments")
+        fi = ex.prog.funcs.get(ex.func)
+        rty = reg.record(name[10:], fi.module if fi else None)
+        ref = st.alloc(DictCell(dict(kwargs), {k: True for k in kwargs}, rty))
+        return [(st, ref)]
     recv = f.recv
     # ---- free functions
     if recv is None:
@@ -690,7 +697,7 @@ def spec_builtin(ex, reg, st, name, args, kwargs, node) -> Val:
 
 
 class FoldDef:
-    """F(xs, k, extra) == If(k <= 0, init, step(F(xs, k-1, extra), xs[k-1], k-1, extra)) -- the defining equation,
+    """F(xs, k, init, extra) == If(k <= 0, init, step(F(xs, k-1, init, extra), xs[k-1], k-1, extra)) -- the defining equation,
     instantiated (verify.prepare_query) at every application of F occurring in a query, two rounds deep."""
 
     def __init__(self, F, params, body):
@@ -725,15 +732,16 @@ def spec_fold(ex, reg, st, e: ast.Call, which):
     init_v = ex.freeze(st, ex.one(st, init_e))
     sty = ty_of_val(init_v)
     init_t = to_term(init_v, sty)
-    key = (step_e.id, str(seq.sort()), init_t.sexpr(), tuple(str(ty_of_val(x)) for x in extras))
+    key = (step_e.id, str(seq.sort()), str(sty), tuple(str(ty_of_val(x)) for x in extras))
     if key not in reg.fold_cache:
         name = f"fold_{step_e.id}_{len(reg.fold_cache)}"
         exs = [ty_of_val(x).sort() for x in extras]
-        F = z3.Function(name, seq.sort(), INT, *exs, sty.sort())
+        F = z3.Function(name, seq.sort(), INT, sty.sort(), *exs, sty.sort())
         pxs = z3.Const("fxs", seq.sort())
         pk = z3.Int("fk")
+        pinit = z3.Const("finit", sty.sort())
         pex = [z3.Const(f"fex{i}", s) for i, s in enumerate(exs)]
-        prev = from_term(F(pxs, pk - 1, *pex), sty)
+        prev = from_term(F(pxs, pk - 1, pinit, *pex), sty)
         elem = VStr(z3.Unit(pxs[pk - 1])) if is_char else from_term(pxs[pk - 1], el)
         s2 = st.clone()
         s2.env = {}
@@ -744,6 +752,6 @@ def spec_fold(ex, reg, st, e: ast.Call, which):
             raise EngineUnsupported("fold step is not single-valued")
         stepped = to_term(ex.freeze(res[0][0], res[0][1], sty), sty)
         reg.fold_cache[key] = F
-        reg.fold_defs[name] = FoldDef(F, [pxs, pk] + pex, z3.If(pk <= 0, init_t, stepped))
+        reg.fold_defs[name] = FoldDef(F, [pxs, pk, pinit] + pex, z3.If(pk <= 0, pinit, stepped))
     F = reg.fold_cache[key]
-    return [(st, from_term(F(seq, n, *[to_term(x, ty_of_val(x)) for x in extras]), sty))]
+    return [(st, from_term(F(seq, n, init_t, *[to_term(x, ty_of_val(x)) for x in extras]), sty))]
